@@ -271,3 +271,149 @@ Section Assemble.
     destruct (vt_locate t _); [|reflexivity]. destruct (lookup _ bl); reflexivity.
   Qed.
 End Assemble.
+
+(** * Shape level *)
+Lemma sel_app_mid {A} (a b c : list A) : sel (a ++ b ++ c) (len a) (len a + len b) = b.
+Proof.
+  unfold sel, drop, take, len.
+  replace (Z.to_nat (Z.of_nat (length a) + Z.of_nat (length b))) with (length (a ++ b)) by (rewrite app_length; lia).
+  rewrite Nat2Z.id, app_assoc, firstn_app, firstn_all.
+  replace (length (a ++ b) - length (a ++ b))%nat with 0%nat by lia. cbn [firstn]. rewrite app_nil_r.
+  rewrite skipn_app, skipn_all. replace (length a - length a)%nat with 0%nat by lia. reflexivity.
+Qed.
+
+Lemma py_slice_pre {A} (a r : list A) : py_slice (a ++ r) None (Some (len a)) = a.
+Proof.
+  unfold py_slice, py_clamp. pose proof (len_nonneg a). pose proof (len_nonneg r).
+  destruct (Z.ltb_spec (len a) 0); [lia|]. rewrite len_app. rewrite Z.min_l by lia.
+  pose proof (sel_app_mid (@nil A) a r) as M. cbn [app] in M. exact M.
+Qed.
+
+Lemma py_slice_mid {A} (a b c : list A) :
+  py_slice (a ++ b ++ c) (Some (len a)) (Some (len a + len b)) = b.
+Proof.
+  unfold py_slice, py_clamp. pose proof (len_nonneg a). pose proof (len_nonneg b). pose proof (len_nonneg c).
+  destruct (Z.ltb_spec (len a) 0); [lia|]. destruct (Z.ltb_spec (len a + len b) 0); [lia|].
+  rewrite !len_app. rewrite !Z.min_l by lia. apply sel_app_mid.
+Qed.
+
+Lemma py_slice_post {A} (a b c : list A) : py_slice (a ++ b ++ c) (Some (len a + len b)) None = c.
+Proof.
+  unfold py_slice, py_clamp. pose proof (len_nonneg a). pose proof (len_nonneg b). pose proof (len_nonneg c).
+  destruct (Z.ltb_spec (len a + len b) 0); [lia|]. rewrite !len_app. rewrite Z.min_l by lia.
+  pose proof (sel_app_mid (a ++ b) c []) as M. rewrite app_nil_r, <- app_assoc, len_app in M.
+  replace (len a + (len b + len c)) with (len a + len b + len c) by lia. exact M.
+Qed.
+
+Lemma list_eqbZ_refl l : list_eqbZ l l = true.
+Proof. induction l; cbn; [reflexivity|]. rewrite Z.eqb_refl. exact IHl. Qed.
+
+Lemma list_eqbZ_eq x : forall y, list_eqbZ x y = true -> x = y.
+Proof.
+  induction x as [|a x IH]; intros [|b y] H; cbn in H; try discriminate; [reflexivity|].
+  apply andb_true_iff in H. destruct H as (H1 & H2). apply Z.eqb_eq in H1. f_equal; auto.
+Qed.
+
+(** the shape a well-formed block has *)
+Definition block_shape (pre post chy chx : list Z) (k : Z * Z) : list Z :=
+  pre ++ [nthZ chy (fst k); nthZ chx (snd k)] ++ post.
+
+Definition key_ok (chy chx : list Z) (k : Z * Z) : Prop :=
+  0 <= fst k < len chy /\ 0 <= snd k < len chx.
+
+Lemma np_at_in l i : 0 <= i < len l -> np_at l i = Ok (nthZ l i).
+Proof.
+  intros H. unfold np_at. destruct (Z.leb_spec (- len l) i); [|lia]. destruct (Z.ltb_spec i (len l)); [|lia].
+  destruct (Z.ltb_spec i 0); [lia|]. reflexivity.
+Qed.
+
+Lemma verify_step_ok pre post chy chx st k :
+  key_ok chy chx k -> (st = None \/ st = Some (len pre + (2 + len post), pre, post)) ->
+  verify_step chy chx (len pre) st (k, block_shape pre post chy chx k) =
+    Ok (Some (len pre + (2 + len post), pre, post)).
+Proof.
+  intros (Ky & Kx) Hst. unfold verify_step, block_shape. destruct k as (iy, ix). cbn [fst snd] in *.
+  set (mid := [nthZ chy iy; nthZ chx ix]).
+  assert (Lm : len mid = 2) by reflexivity.
+  rewrite py_slice_pre. rewrite <- Lm at 1. rewrite py_slice_post.
+  pose proof (py_slice_mid pre mid post) as PM. rewrite Lm in PM. rewrite PM.
+  rewrite !len_app, Lm. pose proof (len_nonneg pre). pose proof (len_nonneg post).
+  assert (S1 : (st1 <- match st with
+                       | None => if len pre + (2 + len post) <? len pre + 2 then Err EValue
+                                 else Ok (len pre + (2 + len post), pre, post)
+                       | Some s => Ok s
+                       end ;; Ok st1) = Ok (len pre + (2 + len post), pre, post)).
+  { destruct Hst as [-> | ->].
+    - destruct (Z.ltb_spec (len pre + (2 + len post)) (len pre + 2)); [lia | reflexivity].
+    - reflexivity. }
+  destruct (match st with None => _ | Some s => Ok s end) as [st1|]; cbn [bind] in *; [|discriminate].
+  inversion S1; subst st1. rewrite Z.eqb_refl, !list_eqbZ_refl. cbn [negb andb orb].
+  rewrite !np_at_in by lia. cbn [bind]. unfold mid. rewrite list_eqbZ_refl. reflexivity.
+Qed.
+
+Lemma verify_loop_ok pre post chy chx : forall keys st,
+  Forall (key_ok chy chx) keys ->
+  (st = None \/ st = Some (len pre + (2 + len post), pre, post)) ->
+  verify_loop chy chx (len pre) st (map (fun k => (k, block_shape pre post chy chx k)) keys) =
+    Ok (match keys with [] => st | _ => Some (len pre + (2 + len post), pre, post) end).
+Proof.
+  induction keys as [|k r IH]; intros st HK Hst; [reflexivity|].
+  inversion HK; subst. cbn [map verify_loop]. rewrite verify_step_ok by assumption. cbn [bind].
+  rewrite IH by auto. destruct r; reflexivity.
+Qed.
+
+(** _verify_shape accepts every set of well-shaped blocks and returns the mosaic shape *)
+Lemma verify_shape_ok pre post chy chx keys :
+  Forall (key_ok chy chx) keys -> keys <> [] ->
+  ba_verify_shape (map (fun k => (k, block_shape pre post chy chx k)) keys) chy chx (len pre) =
+    Ok (pre ++ [sumZ chy; sumZ chx] ++ post).
+Proof.
+  intros HK Hne. unfold ba_verify_shape. rewrite verify_loop_ok by auto. cbn [bind].
+  destruct keys; [congruence | reflexivity].
+Qed.
+
+Lemma verify_shape_empty chy chx axis : ba_verify_shape [] chy chx axis = Ok [sumZ chy; sumZ chx].
+Proof. reflexivity. Qed.
+
+(** a block whose Y/X extent differs from its chunk is rejected with ValueError *)
+Lemma verify_shape_mismatch pre post chy chx k sy sx rest :
+  key_ok chy chx k -> (sy, sx) <> (nthZ chy (fst k), nthZ chx (snd k)) ->
+  ba_verify_shape ((k, pre ++ [sy; sx] ++ post) :: rest) chy chx (len pre) = Err EValue.
+Proof.
+  intros (Ky & Kx) Hne. unfold ba_verify_shape. cbn [verify_loop]. unfold verify_step.
+  destruct k as (iy, ix). cbn [fst snd] in *.
+  set (mid := [sy; sx]). assert (Lm : len mid = 2) by reflexivity.
+  rewrite py_slice_pre. rewrite <- Lm at 1. rewrite py_slice_post.
+  pose proof (py_slice_mid pre mid post) as PM. rewrite Lm in PM. rewrite PM.
+  rewrite !len_app, Lm. pose proof (len_nonneg pre). pose proof (len_nonneg post).
+  destruct (Z.ltb_spec (len pre + (2 + len post)) (len pre + 2)); [lia|]. cbn [bind].
+  rewrite Z.eqb_refl, !list_eqbZ_refl. cbn [negb andb orb].
+  rewrite !np_at_in by lia. cbn [bind]. unfold mid.
+  destruct (list_eqbZ [sy; sx] [nthZ chy iy; nthZ chx ix]) eqn:Eq; [|reflexivity].
+  apply list_eqbZ_eq in Eq. inversion Eq; subst. congruence.
+Qed.
+
+(** BlockAssembler.__init__ *)
+Lemma ba_init_ok pre post chy chx keys :
+  nonneg chy -> nonneg chx -> tot chy < two63 -> tot chx < two63 ->
+  Forall (key_ok chy chx) keys -> (keys <> [] \/ (pre = [] /\ post = [])) ->
+  exists a t, ba_init (map (fun k => (k, block_shape pre post chy chx k)) keys) chy chx (len pre) = Ok a /\
+            vt_init chy chx = Ok t /\ rt_wf (RVar t) /\
+            ba_shape a = pre ++ [sumZ chy; sumZ chx] ++ post /\ ba_axis a = len pre /\ ba_tiles a = t.
+Proof.
+  intros Ny Nx Ty Tx HK Hne.
+  destruct (vt_init_wf chy chx Ny Nx Ty Tx) as (t & Et & Wt & Oy & Ox).
+  assert (Esh : ba_verify_shape (map (fun k => (k, block_shape pre post chy chx k)) keys) chy chx (len pre)
+                = Ok (pre ++ [sumZ chy; sumZ chx] ++ post)).
+  { destruct keys as [|k r].
+    - destruct Hne as [Hne | (-> & ->)]; [congruence | reflexivity].
+    - apply verify_shape_ok; [assumption | congruence]. }
+  unfold ba_init. rewrite Esh, Et. cbn [bind].
+  pose proof (rt_base_axes (RVar t) Wt) as Eb. cbn [rt_base] in Eb. rewrite Eb. cbn [bind fst snd].
+  pose proof Wt as (Wy & Wx). cbn [rt_y rt_x] in Wy, Wx |- *. rewrite (ax_N_var _ Wy), (ax_N_var _ Wx).
+  rewrite Oy, Ox, !diffs_psum, <- !sumZ_tot.
+  set (mid := [sumZ chy; sumZ chx]). assert (Lm : len mid = 2) by reflexivity.
+  pose proof (py_slice_mid pre mid post) as PM. rewrite Lm in PM. rewrite PM. unfold mid.
+  rewrite list_eqbZ_refl. exists {| ba_shape := pre ++ [sumZ chy; sumZ chx] ++ post; ba_axis := len pre; ba_tiles := t |}, t.
+  cbn [ba_shape ba_axis ba_tiles]. split; [reflexivity|]. split; [reflexivity|]. split; [exact Wt|]. auto.
+Qed.
